@@ -47,6 +47,7 @@ type L1 struct {
 	Perm      *PermStore
 	Authority string
 	PoolAddr  sdk.AccAddress
+	keys      map[string]*storetypes.KVStoreKey
 }
 
 var L1Basics = module.NewBasicManager(auth.AppModuleBasic{}, bank.AppModuleBasic{}, ophost.AppModuleBasic{})
@@ -92,7 +93,35 @@ func NewL1(opt L1Options) *L1 {
 	}
 	ctx := sdk.NewContext(ms, tmproto.Header{Height: 100, Time: L1GenesisTime, ChainID: "l1-verif"}, false, log.NewNopLogger())
 
-	enc := MakeEncodingConfig(L1Basics)
+	w := &L1{Ctx: ctx, StoreKeys: sks, Enc: MakeEncodingConfig(L1Basics), keys: keys}
+	w.wire()
+	if !opt.Blank {
+		if err := w.AK.Params.Set(ctx, authtypes.DefaultParams()); err != nil {
+			panic(err)
+		}
+		if err := w.BK.SetParams(ctx, banktypes.DefaultParams()); err != nil {
+			panic(err)
+		}
+		params := ophosttypes.DefaultParams()
+		if opt.RegistrationFee != nil {
+			params.RegistrationFee = opt.RegistrationFee
+		}
+		if err := w.HK.SetParams(ctx, params); err != nil {
+			panic(err)
+		}
+		// make sure the module accounts that can receive funds exist up front
+		w.AK.GetModuleAccount(ctx, distributiontypes.ModuleName)
+		w.AK.GetModuleAccount(ctx, authtypes.Minter)
+	}
+	for _, name := range SortedKeys(opt.Accounts) {
+		w.CreateAccount(ctx, name, opt.Accounts[name])
+	}
+	return w
+}
+
+// wire constructs the keepers, servers and router over the world's store keys. It writes nothing.
+func (w *L1) wire() {
+	keys, enc, ctx := w.keys, w.Enc, w.Ctx
 	maccPerms := map[string][]string{
 		authtypes.FeeCollectorName:   nil,
 		distributiontypes.ModuleName: nil,
@@ -104,21 +133,11 @@ func NewL1(opt L1Options) *L1 {
 		authtypes.ProtoBaseAccount, maccPerms,
 		authcodec.NewBech32Codec(sdk.GetConfig().GetBech32AccountAddrPrefix()),
 		sdk.GetConfig().GetBech32AccountAddrPrefix(), authority)
-	if !opt.Blank {
-		if err := ak.Params.Set(ctx, authtypes.DefaultParams()); err != nil {
-			panic(err)
-		}
-	}
 	blocked := map[string]bool{}
 	for acc := range maccPerms {
 		blocked[authtypes.NewModuleAddress(acc).String()] = true
 	}
 	bk := bankkeeper.NewBaseKeeper(enc.Marshaler, runtime.NewKVStoreService(keys[banktypes.StoreKey]), ak, blocked, authority, ctx.Logger())
-	if !opt.Blank {
-		if err := bk.SetParams(ctx, banktypes.DefaultParams()); err != nil {
-			panic(err)
-		}
-	}
 	router := baseapp.NewMsgServiceRouter()
 	router.SetInterfaceRegistry(enc.InterfaceRegistry)
 	banktypes.RegisterMsgServer(router, bankkeeper.NewMsgServerImpl(bk))
@@ -126,29 +145,19 @@ func NewL1(opt L1Options) *L1 {
 	perm := &PermStore{key: keys[permStoreName]}
 	var hook ophosttypes.BridgeHook = ophosthook.NewBridgeHook(perm, perm, ak.AddressCodec())
 	hk := ophostkeeper.NewKeeper(enc.Marshaler, runtime.NewKVStoreService(keys[ophosttypes.StoreKey]), ak, bk, pool{bk}, hook, authority)
-	params := ophosttypes.DefaultParams()
-	if opt.RegistrationFee != nil {
-		params.RegistrationFee = opt.RegistrationFee
-	}
-	if !opt.Blank {
-		if err := hk.SetParams(ctx, params); err != nil {
-			panic(err)
-		}
-	}
 	ophosttypes.RegisterMsgServer(router, ophostkeeper.NewMsgServerImpl(*hk))
 
-	// make sure the module accounts that can receive funds exist up front
-	if !opt.Blank {
-		ak.GetModuleAccount(ctx, distributiontypes.ModuleName)
-		ak.GetModuleAccount(ctx, authtypes.Minter)
-	}
+	w.AK, w.BK, w.HK, w.Q, w.Router, w.Perm = ak, bk, hk, ophostkeeper.NewQuerier(*hk), router, perm
+	w.Authority, w.PoolAddr = authority, authtypes.NewModuleAddress(distributiontypes.ModuleName)
+}
 
-	w := &L1{Ctx: ctx, StoreKeys: sks, Enc: enc, AK: ak, BK: bk, HK: hk, Q: ophostkeeper.NewQuerier(*hk),
-		Router: router, Perm: perm, Authority: authority, PoolAddr: authtypes.NewModuleAddress(distributiontypes.ModuleName)}
-	for _, name := range SortedKeys(opt.Accounts) {
-		w.CreateAccount(ctx, name, opt.Accounts[name])
-	}
-	return w
+// Respawn returns a node that has just been started on this world's stores: newly constructed
+// keepers, servers and router (nothing any earlier execution left in process memory), over the
+// same store keys, so that it runs on every context of the original world. It writes nothing.
+func (w *L1) Respawn() *L1 {
+	n := &L1{Ctx: w.Ctx, StoreKeys: w.StoreKeys, Enc: w.Enc, keys: w.keys}
+	n.wire()
+	return n
 }
 
 // CreateAccount registers the account and mints it coins (setup only).
